@@ -61,7 +61,10 @@ func (m *metadataStoreIndex) UpdateIndex(log ipfslog.Log, _ []ipfslog.Entry) err
 	m.lock.Lock()
 	defer m.lock.Unlock()
 
-	entries := log.GetEntries().Slice()
+	// scan the deterministic log order (oldest first), not the order in which
+	// the entries happened to be inserted in memory: entries joined from a
+	// replicated batch or loaded on reopen are not inserted oldest first
+	entries := log.Values().Slice()
 
 	// Resetting state
 	m.contacts = map[string]*AccountContact{}
